@@ -155,6 +155,13 @@ func (h *Hist) scripted(act string, height int64, bt time.Time, codes map[string
 		res, taken := h.deliver(height, bt, bz, txs, results)
 		codes["unstake "+codeStr(res)]++
 		h.tr.Line("unstake", res.Code == 0, "%s => %s %d %s", line, codeStr(res), taken, h.snap)
+	case "unjail":
+		bz := chain.SignTx(chainID, k, chain.MsgNodeUnjail(k.Addr, k.Addr), fee, h.nextEntropy(), "")
+		now := time.Now()
+		line := fmt.Sprintf("tx unjail %d %s %d %s %s %d", height, nanos(bt), now.UnixNano(), hx(k.Addr), hx(k.Addr), fee)
+		res, taken := h.deliver(height, bt, bz, txs, results)
+		codes["unjail "+codeStr(res)]++
+		h.tr.Line("unjail", res.Code == 0, "%s => %s %d %s", line, codeStr(res), taken, h.snap)
 	case "stake":
 		amt := h.snap.Params.StakeMinimum + 1000000
 		chains, url := []string{"0001"}, "https://again.example:443"
@@ -326,6 +333,9 @@ func (h *Hist) action(height int64, bt time.Time, codes map[string]int, txs *[][
 			return
 		}
 		v := cands[r.Intn(len(cands))]
+		for i := 0; i < 3 && v.StakedTokens.LT(sdk.NewInt(min)); i++ { // prefer nodes that could be unjailed
+			v = cands[r.Intn(len(cands))]
+		}
 		signer := h.keyOf[v.Address.String()]
 		if ok2, has := outKeyOf(h, v); has && r.Chance(1, 3) {
 			signer = ok2
